@@ -17,11 +17,11 @@ def feature_matrix(ctx, mod):
     done = []
     for cfg in MATRIX.get(ctx.prop, []):
         try:
-            d, info = extract.facts_for(cfg, fresh=False, log=lambda m: print(m, file=sys.stderr))
+            d, info, crates_ = extract.facts_for(cfg, fresh=False, log=lambda m: print(m, file=sys.stderr), loader=facts.load_dir)
         except extract.ExtractError as e:
             ctx.note('feature config %s could not be extracted: %s' % (cfg, str(e).splitlines()[0]))
             continue
-        prog = analysis.Prog(facts.load_dir(d))
+        prog = analysis.Prog(crates_)
         if os.environ.get('DP_NO_NORMALISE') != '1':
             from . import inline
             inline.normalise(prog, inline.DEADPOOL_CRATES, inline.default_keep(prog))
